@@ -174,6 +174,8 @@ type runConfig struct {
 	deadline   time.Time
 	verbose    bool
 	initialPrefix []int64
+	logOnlyFirst  bool
+	logLimit      int
 }
 
 type queue struct {
@@ -246,7 +248,7 @@ func newMachine(w *world, id int) (*machine, error) {
 		globals: map[*ssa.Global]ptr{}, constCache: map[*ssa.Const]value{}, implCache: map[implKey]bool{},
 		extErrs: map[string]*extErr{}, maxSteps: w.cfg.maxSteps, trace: w.cfg.trace, maxSplit: w.cfg.maxSplit, tier: w.cfg.tier}
 	logp := ""
-	if w.cfg.logQueries != "" {
+	if w.cfg.logQueries != "" && (id == 0 || !w.cfg.logOnlyFirst) {
 		logp = fmt.Sprintf("%s.%d.smt2", w.cfg.logQueries, id)
 	}
 	sol, err := newSolver(w.cfg.solverBin, w.cfg.timeoutMs, logp)
@@ -254,6 +256,7 @@ func newMachine(w *world, id int) (*machine, error) {
 		return nil, err
 	}
 	m.sol = sol
+	sol.logLimit = w.cfg.logLimit
 	sol.onAssert = func(t *term) {
 		if m.known == nil {
 			return
